@@ -19,7 +19,7 @@ impl Prop for C13 {
     "C13"
   }
   fn rule(&self) -> String {
-    "hosts: G1 well-typed programs (accepted) and their single-fault mutants (rejected); rewrites applied on the typed IR: alpha-renaming of every local, permuting classes / members, wrapping a tape-chosen expression in parentheses or a block, dropping let annotations, dropping lambda parameter annotations where a let annotation supplies the hint, moving a class into a new module with the corresponding imports; oracle (metamorphic): the checker's verdict is identical before and after (for annotation-dropping rewrites only accepted hosts are used and a rejection of the less annotated form is counted, not reported, because the property only speaks about making inferred types explicit), and for accepted pairs the emitted WebAssembly of both forms prints the same lines and ends the same way, equal to the reference interpreter's run; non-trivial = the rewrite changed the text and the host has >=1 generic call, lambda or match; distinct = hash of both texts".into()
+    "hosts: G1 well-typed programs (accepted) and their single-fault mutants (rejected); rewrites applied on the typed IR: alpha-renaming of every local, permuting classes / members, renaming every local binder after its scope level so that sibling scopes reuse names (the reverse of renaming to fresh names), wrapping a tape-chosen expression in parentheses or a block, annotating inferred lambda parameters (optionally after dropping type arguments inside the host so that lambda bodies need their expected type), dropping let annotations, dropping lambda parameter annotations where a let annotation supplies the hint, moving a class into a new module with the corresponding imports; oracle (metamorphic): the checker's verdict is identical before and after (for annotation-dropping rewrites only accepted hosts are used and a rejection of the less annotated form is counted, not reported, because the property only speaks about making inferred types explicit), and for accepted pairs the emitted WebAssembly of both forms prints the same lines and ends the same way, equal to the reference interpreter's run; non-trivial = the rewrite changed the text and the host has >=1 generic call, lambda or match; distinct = hash of both texts".into()
   }
   fn assumptions(&self) -> Vec<String> {
     vec!["rewrites are performed on the generator's IR, so they are meaning-preserving by construction (names are unique per program; imports are derived from the module of every referenced class)".into(), "pairs on which the compiler crashes or emits an unloadable module are C03's findings and are discarded here".into()]
@@ -42,10 +42,15 @@ impl Prop for C13 {
         fault = json!({"kind": f.kind, "site": f.site});
       }
     }
+    let mut pre = Value::Null;
+    if rewrite == "annotate-lambda" && t.bool(2, 3) {
+      // hosts whose lambda bodies need the expected type: type arguments dropped first (not judged)
+      pre = json!(apply(&mut ir, t, "drop-type-arguments-deep"));
+    }
     let before = ir.render();
     let what = apply(&mut ir, t, rewrite);
     let after = ir.render();
-    json!({"before": mods_json(&before), "after": mods_json(&after), "entry": ir.entry, "rewrite": rewrite, "what": what, "fault": fault, "features": feats})
+    json!({"before": mods_json(&before), "after": mods_json(&after), "entry": ir.entry, "rewrite": rewrite, "what": what, "pre_step": pre, "fault": fault, "features": feats})
   }
   fn check(&self, art: &Value) -> Outcome {
     let mut out = Outcome::default();
@@ -80,6 +85,11 @@ impl Prop for C13 {
       if rewrite.starts_with("drop-") && acc_b && !acc_a {
         // the less annotated form needs the annotation: counted, not a flip in the property's direction
         out.label(format!("needs-annotation:{rewrite}"));
+        return out;
+      }
+      if rewrite == "annotate-lambda" && !acc_b {
+        // the host's parameter types were not inferable, so the annotation is not "an inferred type made explicit"
+        out.label("host-needed-the-annotation:annotate-lambda");
         return out;
       }
       out.fail(format!("verdict-flip/{rewrite}/{}", if acc_b { "accepted->rejected" } else { "rejected->accepted" }), detail("the checker's verdict changed under a meaning-preserving rewrite"));
